@@ -131,6 +131,18 @@ func (p *Path) runInit(pkg *ssa.Package) {
 	if p.initRun[pkg] {
 		return
 	}
+	if !p.isTemplate && !p.eng.noTemplate {
+		p.initRun[pkg] = true
+		p.initFromTemplate(pkg)
+		return
+	}
+	p.runInitDirect(pkg)
+}
+
+func (p *Path) runInitDirect(pkg *ssa.Package) {
+	if p.initRun[pkg] {
+		return
+	}
 	p.initRun[pkg] = true
 	initFn := pkg.Func("init")
 	if initFn == nil || initFn.Blocks == nil {
@@ -335,16 +347,22 @@ func (p *Path) runBlocks(fr *Frame, b *ssa.BasicBlock, stop *ssa.BasicBlock) Val
 }
 
 func (p *Path) evalLenient(fr *Frame, in ssa.Value) (v Value) {
+	depth := len(p.stack)
 	defer func() {
 		if r := recover(); r != nil {
 			if lf, ok := r.(lenientFail); ok {
 				v = Poison{lf.msg}
+				p.stack = p.stack[:depth]
+				return
+			}
+			if pe, ok := r.(pathEnd); ok && p.isTemplate {
+				v = Poison{pe.Msg}
+				p.stack = p.stack[:depth]
 				return
 			}
 			panic(r)
 		}
 	}()
-	depth := len(p.stack)
 	v = p.eval(fr, in)
 	p.stack = p.stack[:depth]
 	return v
